@@ -17,7 +17,8 @@ func parseCacheControl(ccHeader string) (cacheControl, error) {
 	cc := cacheControl{}
 	// Parse the Cache-Control header for max-age directive
 	for directive := range strings.SplitSeq(ccHeader, ",") {
-		directive = strings.TrimSpace(directive)
+		// Directive names are case-insensitive (RFC 9111 section 5.2)
+		directive = strings.ToLower(strings.TrimSpace(directive))
 		if directive == "no-cache" || directive == "no-store" || directive == "private" {
 			// reservoir is a shared cache: "private" responses must not be stored either
 			cc.noCache = true
